@@ -424,4 +424,60 @@ theorem misbehaviourStore_frozen_iff (s : Store) (now : Int) (m : Misbehaviour) 
     rw [key]
     exact ⟨⟨fun h => absurd h (show ("err:basic" : String) ≠ "frozen" by decide), fun h => absurd h.1 hb⟩, fun _ => rfl⟩
 
+/-! ### trusting-period scaling -/
+
+theorem roundHalfEven_cases (a b : Nat) : roundHalfEven a b = a / b ∨ roundHalfEven a b = a / b + 1 := by
+  unfold roundHalfEven
+  simp only
+  split
+  · left; rfl
+  · split
+    · right; rfl
+    · split
+      · left; rfl
+      · right; rfl
+
+/-- for unbonding periods below 10^18 ns (≈ 31.7 years) the 18-decimal rounding of `LegacyDec.Quo` never
+    reaches the next integer: the scaled trusting period is exactly the floor of `tp · newUb / oldUb` -/
+theorem calcTP_floor (tp ou nu : Nat) (h0 : 0 < ou) (h1 : ou < 10 ^ 18) :
+    calculateNewTrustingPeriod tp ou nu = tp * nu / ou := by
+  unfold calculateNewTrustingPeriod
+  have hne : ou ≠ 0 := by omega
+  simp only [hne, ↓reduceIte]
+  generalize hN : tp * nu = N
+  generalize hE : (10:Nat) ^ 18 = E at *
+  have hEpos : 0 < E := by omega
+  have hdm := Nat.div_add_mod N ou
+  have hr := Nat.mod_lt N h0
+  generalize N / ou = q at *
+  generalize N % ou = r at *
+  have hA : N * E = ou * (q * E) + r * E := by
+    rw [← hdm, Nat.add_mul, Nat.mul_assoc]
+  have hq' : N * E / ou = q * E + r * E / ou := by
+    rw [hA, Nat.mul_add_div h0]
+  have hf : r * E / ou + 1 < E := by
+    have h1' : r * E / ou * ou ≤ r * E := Nat.div_mul_le_self _ _
+    have h2 : r * E ≤ (ou - 1) * E := Nat.mul_le_mul_right E (by omega)
+    have h3 : (ou - 1) * E = ou * E - E := by rw [Nat.sub_mul, Nat.one_mul]
+    have h4 : ou * E - E < ou * (E - 1) := by
+      rw [Nat.mul_sub, Nat.mul_one]
+      have : ou ≤ ou * E := Nat.le_mul_of_pos_right ou hEpos
+      have : E ≤ ou * E := Nat.le_mul_of_pos_left E h0
+      omega
+    have h5 : r * E / ou * ou < ou * (E - 1) := by omega
+    have h6 : r * E / ou < E - 1 := by
+      rw [Nat.mul_comm ou (E - 1)] at h5
+      exact Nat.lt_of_mul_lt_mul_right h5
+    omega
+  rcases roundHalfEven_cases (N * E) ou with e | e
+  · rw [e, hq']
+    rw [Nat.add_comm, Nat.add_mul_div_right _ _ hEpos]
+    have : r * E / ou / E = 0 := Nat.div_eq_of_lt (by omega)
+    omega
+  · rw [e, hq']
+    have : (q * E + r * E / ou + 1) = (r * E / ou + 1) + q * E := by omega
+    rw [this, Nat.add_mul_div_right _ _ hEpos]
+    have : (r * E / ou + 1) / E = 0 := Nat.div_eq_of_lt hf
+    omega
+
 end IbcVerif.Tm
